@@ -88,8 +88,12 @@ def panic_inventory(chk, facts):
         chk.lost(rule, "tables/panic_inventory.json")
         return
     by_fp = {}
+    cfgname = getattr(facts, "config", "E")
     for e in inv["entries"]:
-        by_fp.setdefault(e["fp"], []).append(e)
+        # an entry is available in the build configurations it was confirmed in, with that configuration's multiplicity
+        n = e.get("counts", {"E": e["count"]}).get(cfgname, 0)
+        if n:
+            by_fp.setdefault(e["fp"], []).append(dict(e, count=n))
     sites, stats = current_sites(facts)
     groups = {}
     for s in sites:
